@@ -900,7 +900,9 @@ pub fn c11_quiescent(h: &History) -> Verdict {
         match o.tag {
             Tag::Next | Tag::NextIdVal | Tag::Chunk { .. } | Tag::BufNext { .. } => {
                 if matches!(o.res, Res::Panicked(_)) {
-                    return Ok(());
+                    // after a panic inside a pull the cursor model no longer predicts the results; the lengths
+                    // reported afterwards are compared with what the rest of the history actually delivers
+                    return c11_after_panic(h, i);
                 }
                 let n = o.requested();
                 if matches!(o.res, Res::End) && n > 0 && !matches!(o.tag, Tag::BufNext { .. }) {
@@ -951,6 +953,45 @@ pub fn c11_quiescent(h: &History) -> Verdict {
                     }
                 }
             }
+        }
+    }
+    Ok(())
+}
+
+/// Sequential history with a panic at op `at`: every later length query must equal the number of elements
+/// that the rest of the history delivers, provided the history then pulls until it sees the end (no skip).
+fn c11_after_panic(h: &History, at: usize) -> Verdict {
+    let rest = &h.ops[at + 1..];
+    if rest.iter().any(|o| o.tag == Tag::Skip || matches!(o.res, Res::Panicked(_) | Res::Runaway) || matches!(o.tag, Tag::Visit | Tag::CompositeDone | Tag::FoldResult | Tag::LowLevel)) {
+        return Ok(());
+    }
+    let saw_end = rest.iter().any(|o| o.is_pull() && matches!(o.res, Res::End) && o.requested() > 0);
+    if !saw_end {
+        return Ok(());
+    }
+    for (j, q) in rest.iter().enumerate() {
+        let reported = match &q.res {
+            Res::Len(Some(k)) => *k,
+            Res::Has(HasRec::Yes(k)) => *k,
+            Res::Has(HasRec::No) => 0,
+            _ => continue,
+        };
+        let mut delivered = 0usize;
+        for o in &rest[j + 1..] {
+            match &o.res {
+                Res::One { .. } => delivered += 1,
+                Res::Chunk { announced, .. } => delivered += *announced,
+                _ => {}
+            }
+        }
+        if reported != delivered {
+            return bad(
+                "wrong-length-after-panic",
+                format!(
+                    "op #{} reports {} remaining elements after a pull panicked (op #{}), but the pulls that follow deliver {} before they report the end",
+                    at + 1 + j, reported, at, delivered
+                ),
+            );
         }
     }
     Ok(())
